@@ -193,7 +193,8 @@ func c19Run(c *core.Ctx) {
 	}
 	c.Info("menu", fmt.Sprint(len(menu)))
 	text400 := bytes.Repeat([]byte("Lorem ipsum dolor sit amet, consectetur. "), 10)[:400]
-	bodies := [][]byte{nil, []byte("0123456789 abcdefghijklmnopqrstuvw"), text400}
+	text2k := bytes.Repeat([]byte("<Override PartName=\"/word/x.xml\" ContentType=\"application/xml\"/>"), 32)
+	bodies := [][]byte{nil, []byte("0123456789 abcdefghijklmnopqrstuvw"), text400, text2k}
 	cs := &core.Case{Kind: "c19"}
 	var archives uint64
 	run := func(entries []zipEntry, class string) {
@@ -231,9 +232,9 @@ func c19Run(c *core.Ctx) {
 	var rec func(names []string)
 	rec = func(names []string) {
 		if len(names) > 0 {
-			for st := 0; st < 3; st++ {
+			for st := 0; st < 4; st++ {
 				for bi, body := range bodies {
-					if bi == 2 && !c.Thorough() && st != 0 {
+					if bi >= 2 && !c.Thorough() && st != 0 && st != 3 {
 						continue
 					}
 					run(mk(names, st, body, false), "A:lists<=3")
@@ -253,7 +254,7 @@ func c19Run(c *core.Ctx) {
 	}
 	for _, n := range menu {
 		if c.Mine(0) {
-			for st := 0; st < 3; st++ {
+			for st := 0; st < 4; st++ {
 				run(mk([]string{n}, st, bodies[1], false), "A:lists<=3")
 			}
 		}
@@ -265,9 +266,9 @@ func c19Run(c *core.Ctx) {
 				continue
 			}
 			l2 := append(recFrom, n2)
-			for st := 0; st < 3; st++ {
+			for st := 0; st < 4; st++ {
 				for bi, body := range bodies {
-					if bi == 2 && !c.Thorough() && st != 0 {
+					if bi >= 2 && !c.Thorough() && st != 0 && st != 3 {
 						continue
 					}
 					run(mk(l2, st, body, false), "A:lists<=3")
@@ -276,7 +277,7 @@ func c19Run(c *core.Ctx) {
 			run(mk(l2, 0, bodies[1], true), "A:lists<=3")
 			for _, n3 := range menu {
 				l3 := append(append([]string{}, l2...), n3)
-				for st := 0; st < 3; st++ {
+				for st := 0; st < 4; st++ {
 					for bi, body := range bodies {
 						if bi == 2 && !c.Thorough() && st != 0 {
 							continue
@@ -317,8 +318,11 @@ func c19Run(c *core.Ctx) {
 								k++
 							}
 						}
-						for st := 0; st < 3; st++ {
+						for st := 0; st < 4; st++ {
 							body := bodies[(st+p)%2]
+							if st == 3 {
+								body = bodies[2+p%2]
+							}
 							run(mk(names, st, body, false), "B:marker-at-every-position")
 						}
 					}
@@ -351,7 +355,7 @@ func c19Run(c *core.Ctx) {
 		}
 	}
 	// (D) jar / apk
-	for _, st := range []int{0, 1, 2} {
+	for _, st := range []int{0, 1, 2, 3} {
 		for _, rest := range [][]string{{}, {"a/B.class"}, {"classes.dex"}, {"a.txt", "b.txt", "c.txt", "d.txt", "classes.dex"}, {"a.txt", "b.txt", "c.txt", "d.txt", "e.txt", "f.txt", "classes.dex"}, {"res/drawable/x.png"}} {
 			if !c.Next() {
 				continue
